@@ -160,12 +160,16 @@ pub(crate) fn memo_macro(args: TokenStream, item: TokenStream) -> TokenStream {
     let output = quote! {
         #(#attrs)*
         #vis #new_sig {
+            // Two memoized functions can have token-identical signatures (e.g. in different
+            // modules), so the location of the definition is part of the key.
+            const __PICO_MEMO_FN_KEY: u64 =
+                ::pico::macro_fns::fn_key(#fn_hash, module_path!(), line!(), column!());
             let _memo_span = ::tracing::debug_span!(#fn_name).entered();
             let mut param_ids = ::pico::macro_fns::init_param_vec();
             #(
                 #param_ids_blocks
             )*
-            let derived_node_id = ::pico::DerivedNodeId::new(#fn_hash.into(), param_ids);
+            let derived_node_id = ::pico::DerivedNodeId::new(__PICO_MEMO_FN_KEY.into(), param_ids);
             let did_recalculate = ::pico::execute_memoized_function(
                 #db_arg,
                 derived_node_id,
